@@ -289,6 +289,14 @@ func main() {
 	aux := flag.String("aux", "", "auxiliary input")
 	flag.Parse()
 	_ = os.MkdirAll(out, 0o755)
+	if flag.Arg(0) == "circle" {
+		circleMode(tier, out)
+		return
+	}
+	if flag.Arg(0) == "degree" {
+		degreeMode(out)
+		return
+	}
 	if flag.Arg(0) == "lexer" {
 		lexerMode(seed, tier, out)
 		return
